@@ -28,6 +28,10 @@ def parseObs (t : String) : Option Obs :=
     | "sUnlock" => some .sUnlock
     | "xStart" => some .xStart
     | "xStop" => some .xStop
+    | "sStatic" => some .sStatic
+    | "sDrop" => some .sDrop
+    | "iShotUnlock" => some .iShotUnlock
+    | "iShotLock" => some .iShotLock
     | "iSetFlag" => some .iSetFlag
     | "iClrFlag" => some .iClrFlag
     | "iSeeSrv1" => some (.iSeeSrv true)
